@@ -78,6 +78,9 @@ def run(rep, tier, seed):
         rep.case((N, d, "history"), nontrivial=True)
         if not numpy.array_equal(r1, J @ Sm):
             rep.violation("rays with a seed matrix N=%d,d=%d" % (N, d), {"got": r1.tolist(), "expected": (J @ Sm).tolist()})
+        G0c = G0.copy(); r0c = r0.copy()
+        G0 *= 3.0; r0 += 1              # the caller edits what it got back
+        G0, r0 = G0c, r0c
         G2, r2 = ei.generate_Gamma_and_rays(N, d)
         if not (numpy.array_equal(G2, G0) and numpy.array_equal(r2, r0)):
             rep.violation("result depends on an earlier call with another seed matrix N=%d,d=%d" % (N, d), {})
